@@ -48,6 +48,8 @@ def scenarios(tier):
     nb = 2 if tier == "quick" else None
     add("crash-par-in-par", chain(("P", Parallel([chain(("Q", Parallel([chain(("A1", Task("fa"))), chain(("B1", Pass(Result="b")))]))), chain(("C1", Task("fc")))])), Z),
         workers={"fa": {"*": [["delay", ["ok", "a"]]]}, "fc": {"*": OK("c")}}, post_bound=nb)
+    add("crash-par-in-par-inner-first", chain(("P", Parallel([chain(("Q", Parallel([chain(("A1", Task("fa"))), chain(("B1", Pass(Result="b")))]))), chain(("C1", Task("fc")))])), Z),
+        workers={"fa": {"*": OK("a")}, "fc": {"*": [["delay", ["ok", "c"]]]}}, post_bound=nb)
     add("crash-par-in-map", chain(("M", Map(chain(("Q", Parallel([chain(("A1", Task("fa"))), chain(("B1", Pass(Result="b")))]))))), Z),
         workers={"fa": {"*": [["echo"]]}}, input=[1, 2], post_bound=nb)
     if tier == "thorough":
